@@ -196,6 +196,63 @@ def scn_suffstat(model, T, scheme, grid):
     return scn
 
 
+def scn_suffstat_batched(T, scheme):
+    """skyride sufficient statistics with batched thetas and heights (each sample has its own event ordering)"""
+    from contracts.C08 import SCHEMES, _heights, _require_genealogy
+    tips = SCHEMES[scheme](T)
+
+    def scn(mk):
+        import torchtree.evolution.coalescent as co
+        from vt import cond
+        cond.TIES[0] = "assume_distinct"
+        with symbolic_factories(co, enabled=mk.symbolic):
+            nh, h = _heights(mk, T, (2,), tips)
+            _require_genealogy(mk, tips, h, (2,), T)
+            theta = mk.real("theta", (2, T - 1), lo=0)
+            dist = co.PiecewiseConstantCoalescent(theta)
+            lp = dist.log_prob(nh)
+            ss, counts = dist.sufficient_statistics(nh)
+        if tuple(ss.shape) != (2, T - 1) or tuple(counts.shape) != (2, T - 1):
+            return [("true", "shapes", False, "ss %s counts %s" % (tuple(ss.shape), tuple(counts.shape)))]
+        spec = []
+        cnt = mk.lift(counts.double()) if isinstance(counts, torch.Tensor) else counts
+        for b in range(2):
+            tot = 0
+            for g in range(T - 1):
+                tot = tot - el(ss, (b, g)) / el(theta, (b, g)) - el(cnt, (b, g)) * slog(el(theta, (b, g)))
+            spec.append(tot)
+        return [("eq", "sufficient_statistics_reproduce_log_prob", lp, spec)]
+    return scn
+
+
+def scn_gmrf_sequence(N):
+    """time-aware GMRF evaluated, node heights updated through the public setter (any new ranking), evaluated again:
+    the second value is the density at the NEW heights (equals a fresh object's)"""
+    def scn(mk):
+        import torchtree.distributions.gmrf as gm
+        from torchtree.core.parameter import Parameter
+        from specs import treemodels, trees
+        from vt import cond
+        cond.TIES[0] = "assume_distinct"
+        T = N + 1
+        names = ["t%d" % i for i in range(T)]
+        tree = trees.caterpillar(list(range(T)))  # the ranking of internal nodes is read from the heights, not the topology
+        with symbolic_factories(gm, enabled=mk.symbolic):
+            x = mk.real("x", (N,))
+            tau = mk.real("tau", (1,), lo=0)
+            h1 = mk.real("ha", (T - 1,), lo=0)
+            h2 = mk.real("hb", (T - 1,), lo=0)
+            tm, _ = treemodels.build_timetree(tree, names, [0.0] * T, h1)
+            g = gm.GMRF("gmrf", Parameter("x", x), Parameter("tau", tau), tm)
+            g()
+            tm._internal_heights.tensor = h2
+            second = g()
+            tm2, _ = treemodels.build_timetree(tree, names, [0.0] * T, h2)
+            fresh = gm.GMRF("gmrf2", Parameter("x", x), Parameter("tau", tau), tm2)()
+        return [("eq", "value_after_height_update_is_fresh_value", second, fresh)]
+    return scn
+
+
 def ob_quadrature(seed):
     """bounded stand-in: the closed forms equal numerical integration of the product of densities"""
     def body():
@@ -274,5 +331,10 @@ def obligations(tier, seed):
             add("C20.suffstat.skyride[T=%d,%s]" % (T, scheme), "scn_suffstat", ("skyride", T, scheme, None), "sufficient statistics reproduce log_prob")
             for grid in ([0.7], [0.4, 2.5], [0.3, 1.2, 50.0]):
                 add("C20.suffstat.skygrid[T=%d,%s,grid=%s]" % (T, scheme, grid), "scn_suffstat", ("skygrid", T, scheme, grid), "sufficient statistics reproduce log_prob")
+    for T in (3,) if tier == "quick" else (3, 4):
+        for scheme in ("serial", "ties"):
+            add("C20.suffstat.skyride.batched[T=%d,%s]" % (T, scheme), "scn_suffstat_batched", (T, scheme), "sufficient statistics reproduce log_prob (batched, per-sample orderings)")
+    for N in (2, 3):
+        add("C20.gmrf.timeaware.sequence[N=%d]" % N, "scn_gmrf_sequence", (N,), "time-aware GMRF follows a re-ranking of the coalescent times")
     obs.append(ob_quadrature(seed))
     return obs
